@@ -1,9 +1,9 @@
 #!/bin/bash
 # detect_seeded.sh <ID> [check-id]: applies the seeded patch of <ID> to /repo, runs the check, reverts exactly that patch
 ID=$1; CK=${2:-$1}
-P=/tmp/wt/$ID.out/patch.diff; [ -f $P ] || P=/verif/seeded/$ID/patch.diff
+SUF=${SEEDSUFFIX:-}; P=${SEEDROOT:-/tmp/wt}/$ID.out/patch.diff; [ -f $P ] || P=/verif/seeded/$ID$SUF/patch.diff
 if [ -n "$(git -C /repo status --porcelain)" ]; then echo "refusing: /repo has uncommitted changes"; exit 2; fi
 git -C /repo apply $P || exit 2
-cd /verif && ./check $CK > /tmp/det_$ID.log 2>&1; rc=$?
+cd /verif && ./check $CK > /tmp/det_$ID$SUF.log 2>&1; rc=$?
 git -C /repo apply -R $P
-echo "$ID (check $CK) rc=$rc"; grep "VIOLATION\|^$CK:" /tmp/det_$ID.log | cut -c1-330
+echo "$ID (check $CK) rc=$rc"; grep "VIOLATION\|^$CK:" /tmp/det_$ID$SUF.log | cut -c1-330
